@@ -704,6 +704,11 @@ func runPlugins(cfg *runCfg) error {
 	}
 	cfg.St["samples"] = samples
 	cfg.St["impl_failures"] = implFail
+	if nSys > 0 {
+		crashed, detail := nullContentCrashProbe()
+		cfg.St["null_content_reply_crashes_frps"] = crashed
+		cfg.St["null_content_probe_detail"] = detail
+	}
 	_ = strings.Join
 	return nil
 }
